@@ -153,6 +153,7 @@ def run(ctx):
     binary = ctx.go_build("hmm")
     total = 0
     comparisons = 0
+    drift = 0
     feats = {}
     per_family = {}
     for label, kind, cases, n, sim in gen:
@@ -161,6 +162,7 @@ def run(ctx):
             ctx.log("%s: replay aborted (%s)" % (label, summ["aborted"]))
         total += summ.get("cases", 0)
         comparisons += summ.get("comparisons", 0)
+        drift += summ.get("viterbi_tiebreak_drift", 0)
         per_family[label] = {"cases": summ.get("cases", 0), "comparisons": summ.get("comparisons", 0),
                              "mismatches": summ.get("mismatches", 0), "mode": "simulate" if sim else "exhaustive"}
         for k, v in summ.get("features", {}).items():
@@ -225,6 +227,8 @@ def run(ctx):
     ctx.extra["replay_comparisons"] = comparisons
     ctx.extra["families"] = per_family
     ctx.extra["features_exercised"] = feats
+    # information only (DESIGN 3.6): the library broke a Viterbi tie differently from the mechanism model
+    ctx.extra["drift_viterbi_tiebreak"] = drift
     ctx.extra["recorded_events"] = len(clean)
     ctx.extra["bounds"] = {"families": [dict(label=l, kind=k, consts=c, simulate_traces_per_worker=s, workers=WORKERS)
                                         for l, k, c, s, _ in FAMILIES[tier]],
